@@ -316,10 +316,12 @@ def end_line(cx, k, name):
     rng = cx.rng
     w = END_WORD[k]
     if k == "KBlockData" and not name:
-        forms = ["end", "end block data", "endblockdata" if False else "end block data"]
+        forms = ["end", "end block data", "endblockdata"]
     else:
-        forms = ["end", f"end {w}", f"end {w} {name}".rstrip(), f"end{w.replace(' ', '')}" if k != "KBlockData" else f"end {w}",
-                 f"end{w.replace(' ', '')} {name}".rstrip() if k != "KBlockData" else f"end {w} {name}".rstrip()]
+        # block data: "endblockdata", "end blockdata name" (END_RE accepts block\s*data since the repair of C01
+        # end-blockdata-spelling)
+        forms = ["end", f"end {w}", f"end {w} {name}".rstrip(), f"end{w.replace(' ', '')}",
+                 f"end{w.replace(' ', '')} {name}".rstrip() if k != "KBlockData" else f"end blockdata {name}".rstrip()]
     if k == "KEnum":
         forms = ["end enum", "endenum", "END ENUM"]
     if k == "KInterface":
